@@ -89,6 +89,7 @@ def run():
         ok &= good
         print(('ok   ' if good else 'FAIL ') + f'negative control {module}/{cfg}: TLC reports "{needle}"')
     ok &= sa_controls()
+    ok &= cli_controls()
     return 0 if ok else 1
 
 
@@ -123,4 +124,31 @@ def sa_controls():
         good = (o['_expect'] <= got) if o['_expect'] else accepted
         ok &= good
         print(('ok   ' if good else 'FAIL ') + f"sequence conformance: {o['_name']}: expected {sorted(o['_expect'])} got {sorted(got)}")
+    return ok
+
+
+def cli_controls():
+    """binding of Cli.tla: a genuine run is accepted; another reference call, another document, a swallowed refusal are rejected"""
+    import copy
+    from . import props_routes
+    fl = {'version': 'micro_upper', 'error': 'dash', 'mode': 'none', 'micro': 'none', 'pattern': 'none', 'boost': True, 'seq': False, 'encoding': 'none',
+          'count': 'none', 'content': 'digits'}
+    api = {'fn': 'make', 'version': 'micro_upper', 'error': 'none', 'mode': 'none', 'mask': 'none', 'boost': True, 'encoding': 'none', 'count': 'absent', 'micro': 'none'}
+    base = props_routes.cli_factory_obs({'flags': fl, 'api': api})
+    other_call = copy.deepcopy(base)
+    other_call['ref_call'] = dict(api, micro='false')
+    other_doc = copy.deepcopy(base)
+    other_doc['cli']['sha'] = '0' * 64
+    swallowed = copy.deepcopy(base)
+    swallowed['ref'] = {'status': 'ValueError', 'files': 0, 'sha': ''}
+    ctl = [dict(base, _name='genuine run', _expect=set()), dict(other_call, _name='reference call is not the specified one', _expect={('C12', 'reference_is_the_specified_call')}),
+           dict(other_doc, _name='document differs', _expect={('C12', 'same_document')}),
+           dict(swallowed, _name='API refuses, tool writes a file', _expect={('C12', 'same_outcome'), ('C12', 'refusal_exit_1_message_no_file')})]
+    verdicts, _ = common.validate_observations('selftest', 'Trace_Cli', ctl, tag='selftest_cli')
+    ok = True
+    for o in ctl:
+        got = {tuple(x) for x in verdicts[o['tid']]['fails']}
+        good = (o['_expect'] <= got) if o['_expect'] else not got
+        ok &= good
+        print(('ok   ' if good else 'FAIL ') + f"cli conformance: {o['_name']}: expected {sorted(o['_expect'])} got {sorted(got)}")
     return ok
